@@ -38,6 +38,7 @@ PROPS = {
              "timeout": {"quick": 600, "thorough": 3000}},
             {"name": "merge-rand", "pkg": COMMON, "tests": ["TestVerifC05MergeRandom"],
              "checks": {"quick": 40000, "thorough": 2000000}, "shards": {"quick": 4, "thorough": 12}},
+            {"name": "merge-fuzz", "pkg": COMMON, "fuzz": "FuzzVerifC05Merge", "fuzztime": 90, "tests": ["FuzzVerifC05Merge"], "tiers": ["thorough"], "timeout": {"thorough": 600}},
             {"name": "apply-rand", "pkg": COMMON, "tests": ["TestVerifC05ApplyUpdateRandom"],
              "checks": {"quick": 40000, "thorough": 2000000}, "shards": {"quick": 4, "thorough": 12}},
         ],
@@ -204,6 +205,7 @@ PROPS = {
             {"name": "c13-regress", "pkg": COMPOSITE, "tests": ["TestVerifC13Regressions", "TestVerifC13RegressionsNull"]},
             {"name": "c13-composite", "pkg": COMPOSITE, "tests": ["TestVerifC13Composite"],
              "checks": {"quick": 6000, "thorough": 400000}, "shards": {"quick": 8, "thorough": 10}},
+            {"name": "c13-fuzz", "pkg": COMPOSITE, "fuzz": "FuzzVerifC13Response", "fuzztime": 120, "tests": ["FuzzVerifC13Response"], "tiers": ["thorough"], "timeout": {"thorough": 900}},
             {"name": "c13-decorator", "pkg": DECORATOR, "tests": ["TestVerifC13Decorator"],
              "checks": {"quick": 3000, "thorough": 150000}, "shards": {"quick": 4, "thorough": 4}},
         ],
